@@ -178,6 +178,13 @@ func vfC05Transfer(sess *vfSession, a vfC05Act, src, base string) string {
 	os.MkdirAll(dest, 0755)
 	cfg := vfPairCfg{Upload: a.Upload, Timeout: 2, Overwrite: true}
 	paths := []string{filepath.Join(src, "small.bin")}
+	if a.Outcome == "forked" {
+		if !sess.opts.Tunnel {
+			a.Outcome = "succeeded"
+		} else {
+			cfg.Fork = true
+		}
+	}
 	switch a.Outcome {
 	case "refused":
 		if a.Upload {
@@ -223,7 +230,7 @@ func vfC05Transfer(sess *vfSession, a vfC05Act, src, base string) string {
 	if !run.clientIdle {
 		return "the filter never left transfer mode after outcome " + a.Outcome + ": " + run.describe()
 	}
-	if a.Outcome == "succeeded" && (!run.serverSuccess() || !run.clientSuccess()) {
+	if (a.Outcome == "succeeded" || a.Outcome == "forked") && (!run.serverSuccess() || !run.clientSuccess()) {
 		return "fault-free transfer failed: " + run.describe()
 	}
 	return ""
@@ -304,6 +311,7 @@ func vfGenC05(rt *rapid.T) vfC05Case {
 	cs.Sess.Zmodem = rapid.Bool().Draw(rt, "zmodem")
 	cs.Sess.OSC52 = rapid.Bool().Draw(rt, "osc52")
 	cs.Sess.TraceLog = rapid.Bool().Draw(rt, "tracelog")
+	cs.Sess.Tunnel = rapid.IntRange(0, 3).Draw(rt, "tunnel") == 0
 	withTransfers := rapid.IntRange(0, 19).Draw(rt, "withtransfers") == 0
 	n := rapid.IntRange(1, 12).Draw(rt, "nacts")
 	for i := 0; i < n; i++ {
@@ -312,7 +320,7 @@ func vfGenC05(rt *rapid.T) vfC05Case {
 		switch {
 		case withTransfers && k == 0:
 			a.Kind = "transfer"
-			a.Outcome = rapid.SampledFrom([]string{"succeeded", "refused", "failed", "stopped"}).Draw(rt, "outcome")
+			a.Outcome = rapid.SampledFrom([]string{"succeeded", "refused", "failed", "stopped", "forked"}).Draw(rt, "outcome")
 			a.Upload = rapid.Bool().Draw(rt, "upload")
 		case k <= 5:
 			a.Kind = "out"
@@ -337,7 +345,7 @@ func vfGenC05(rt *rapid.T) vfC05Case {
 			}
 		}
 		if !has {
-			cs.Acts = append([]vfC05Act{{Kind: "transfer", Outcome: rapid.SampledFrom([]string{"succeeded", "refused", "failed", "stopped"}).Draw(rt, "outcome2"),
+			cs.Acts = append([]vfC05Act{{Kind: "transfer", Outcome: rapid.SampledFrom([]string{"succeeded", "refused", "failed", "stopped", "forked"}).Draw(rt, "outcome2"),
 				Upload: rapid.Bool().Draw(rt, "upload2")}}, cs.Acts...)
 		}
 	}
